@@ -118,6 +118,7 @@ func (s *wire6) Plan(w *World) {
 		w.DelayMaxNs = 1e9
 	}
 	w.Sim.SetPoolReuse(int(t.Draw(3)))
+	w.Sim.SetPoolStale(t.Draw(2) == 1)
 	n := t.Range(2, 30)
 	var at int64
 	for i := 0; i < n; i++ {
